@@ -258,3 +258,120 @@ func TestC15Random(t *testing.T) {
 		}
 	})
 }
+
+// longSep builds a separator of exactly n bytes (n >= 8) of the given kind; the
+// comment text is made of words that would be accepted as program text (`or
+// letter`), so a comment cut short changes the program rather than breaking it.
+func longSep(kind string, n int) string {
+	fill := func(k int) string {
+		var b strings.Builder
+		for b.Len() < k {
+			b.WriteString("or letter ")
+		}
+		return b.String()[:k]
+	}
+	switch kind {
+	case "blank":
+		return strings.Repeat(" ", n)
+	case "newlines":
+		return strings.Repeat("\n", n)
+	case "linecomment":
+		return " --" + fill(n-4) + "\n"
+	case "blockcomment":
+		return "--(" + fill(n-6) + ")--"
+	}
+	panic("longSep " + kind)
+}
+
+var longSepKinds = []string{"blank", "newlines", "linecomment", "blockcomment"}
+
+// TestC15Long: separators far longer than any reader buffer, and programs shifted
+// so that a buffer boundary (4096 and its multiples, 64 KiB) falls on every byte of
+// the program text.
+func TestC15Long(t *testing.T) {
+	seedNote(t)
+	StartWatchdog("C15", 90*time.Second)
+	st := NewStats("C15", "long", "corpus and extra programs (single-blank token rendering): (1) one gap replaced by a separator of 4090..4110, 5000, 8191..8200 or (thorough) 65535..65540 bytes (blanks, newlines, a line comment, a block comment whose text would parse as program text), (2) the program shifted by a leading separator so that byte offset 4096 / 8192 falls on every byte of the program; same oracle as the gap part; non-trivial cases = distinct (program, separator kind, length or shift)")
+	st.Exhaustive = true
+	defer st.Write()
+	nshards := envInt("VERIF_NSHARDS", 1)
+	shardIdx := envInt("VERIF_SHARD_INDEX", 0)
+	thorough := tier() == "thorough"
+	progs := corpusTokenPrograms(t)
+	progs["extra_digits_or"] = []string{"find", "all", "at", "least", "1", "digit"}
+	progs["extra_string"] = []string{"find", "all", "'abc def'", "\"x\\ty\"", "@/a+b/"}
+	names := make([]string, 0, len(progs))
+	for n := range progs {
+		names = append(names, n)
+	}
+	sortStrings(names)
+	texts := append([]string{"12ab 7 xyz9"}, corpusTexts...)
+	check := func(name, what string, c LayoutCase, key string) {
+		st.Eval()
+		SetInflight(func() string { return jsonStr(Failure{Property: "C15", Kind: "layout", Case: c}) })
+		sig, msg := checkLayoutCase(c)
+		ClearInflight()
+		if sig != "" {
+			// keep the message short: the sources are thousands of bytes long
+			Fail(t, Failure{Property: "C15", Kind: "layout", What: fmt.Sprintf("[%s, %s] %s", name, what, clipMsg(msg, 400)), Case: c, Sig: sig})
+		}
+		st.NonTrivial(key, func() any { return map[string]any{"program": name, "variant": what} })
+	}
+	for i, name := range names {
+		if i%nshards != shardIdx {
+			continue
+		}
+		toks := progs[name]
+		base := strings.Join(toks, " ")
+		if len(base) > 400 && !thorough {
+			continue
+		}
+		// (1) one long separator in a gap
+		lengths := []int{4090, 4095, 4096, 4097, 4098, 4099, 4100, 4103, 4110, 5000, 8191, 8192, 8193, 8196, 8200}
+		if thorough {
+			lengths = append(lengths, 65535, 65536, 65540)
+		}
+		gaps := []int{0, 1, len(toks) / 2, len(toks) - 1, len(toks)}
+		for gi, gap := range gaps {
+			if gap < 0 || gap > len(toks) {
+				continue
+			}
+			for li, n := range lengths {
+				kind := longSepKinds[(gi+li+i)%len(longSepKinds)]
+				if !thorough && (gi+li+i)%3 != 0 {
+					continue
+				}
+				seps := make([]string, len(toks)+1)
+				for j := range seps {
+					seps[j] = " "
+				}
+				seps[0], seps[len(toks)] = "", ""
+				seps[gap] = longSep(kind, n)
+				variant := Layout(toks, seps)
+				check(name, fmt.Sprintf("gap %d <- %s of %d bytes", gap, kind, n), LayoutCase{Orig: base, Variant: variant, Texts: texts}, fmt.Sprintf("%s|gap%d|%s|%d", name, gap, kind, n))
+			}
+		}
+		// (2) shift: a buffer boundary on every byte of the program
+		stride := 1
+		if !thorough && len(base) > 60 {
+			stride = 1 + len(base)/60
+		}
+		for _, boundary := range []int{4096, 8192} {
+			if boundary == 8192 && !thorough {
+				continue
+			}
+			for off := 0; off <= len(base); off += stride {
+				kind := longSepKinds[(off+i)%len(longSepKinds)]
+				variant := longSep(kind, boundary-off) + base
+				check(name, fmt.Sprintf("shifted by a %s of %d bytes", kind, boundary-off), LayoutCase{Orig: base, Variant: variant, Texts: texts}, fmt.Sprintf("%s|shift|%s|%d", name, kind, boundary-off))
+			}
+		}
+	}
+}
+
+func clipMsg(s string, n int) string {
+	if len(s) > n {
+		return s[:n] + fmt.Sprintf("...(%d bytes)", len(s))
+	}
+	return s
+}
